@@ -219,6 +219,12 @@ def _replay_ids(ctx, F):
             for x, y, flip in ((a, b, False), (b, a, True)):
                 if x.has_field('Frame', framef) and y.has_field('SearchRequest', reqf):
                     found_cmp = True
+                    arith = (x.ops | y.ops) & {'Add', 'AddWithOverflow', 'Sub', 'SubWithOverflow', 'Mul', 'MulWithOverflow', 'Div', 'Shl', 'Shr'} or \
+                        any(cc.name in ('saturating_add', 'saturating_sub', 'wrapping_add', 'wrapping_sub', 'checked_add', 'checked_sub') for cc in (list(x.calls) + list(y.calls)))
+                    if arith:
+                        ctx.bad('GUARD-C11c', fn, 'the %s cut-off is not compared as given: frame.%s or request.%s is shifted by arithmetic before the comparison' % (axis, framef, reqf),
+                                line=c.line, detail='cutoff-shifted:' + reqf)
+                        continue
                     for tgt, rel in c.edges():
                         r = lib.FLIP[rel] if flip else rel
                         if r in ('<=', '<', '=='):       # frame.field <= cutoff holds on this edge
